@@ -26,10 +26,11 @@ Nm = /[0-9]/ |> `int`
 start = Rec+
 class Rec { cnt: Dg; body: Ch{cnt}; tail: Ct(cnt, ";")?; requires `len(body) == cnt` }
 class Ct(np, sp) { nv: `np`; rest: sp >> (Ch // ",") where `lambda q: len(q) <= np` }
+class Cv(nq, tg) { nw: `(nq, tg)`; more: Ch{nq} }
 Dg = /[0-9]/ |> `int`
 Ch = /[ab]/
 ''', {'class': 'Rec', 'field': 'cnt', 'field2': 'body', 'field3': 'tail', 'classtemplate': 'Ct', 'param': 'np', 'param2': 'sp',
-      'field4': 'nv', 'rule': 'Dg', 'rule2': 'Ch'},
+      'field4': 'nv', 'rule': 'Dg', 'rule2': 'Ch', 'classtemplate2': 'Cv', 'param3': 'nq', 'param4': 'tg', 'field5': 'nw'},
            '12ab;,', ['1a;a', '2ab;a,b', '2ab;a,b,a', '0', '1a1b;b', '2a', '1a;']),
     'G3': (r'''
 ignore Sp = / +/
@@ -58,7 +59,8 @@ Bt = 0x61 | b"b"
            'ab1;', ['a1a;', 'b2ab;a0', 'a2a', 'a1b;b1a', 'a0;']),
 }
 BYTES_BASES = {'G4'}
-ENTRIES = {'G2': (('Ct', (2, ';'), [';a,b', ';a,b,a', ';', 'a']), ('Ct', (0, ','), [',', ',a']))}
+# parameterised class as entry point with value arguments: Cv.parse(2, 'x')(text)
+ENTRIES = {'G2': (('Cv', (2, 'x'), ['ab', 'a', 'abb', '']), ('Cv', (0, None), ['', 'a']))}
 API = {'parse', 'Infix', 'Prefix', 'Postfix', 'ParsedObject', 'ParsingRule', 'InputError', 'ParseError', 'PartialParseError',
        'visit', 'traverse', 'transform'}
 DSL_WORDS = {'class', 'let', 'in', 'pass', 'requires', 'ignore', 'ignored', 'override', 'overrides', 'grammar', 'extends', 'between', 'where',
@@ -95,12 +97,12 @@ def outcome_table(desc, inputs, mp, extra_entries=()):
         for t in texts:
             try:
                 parse = getattr(g, inv.get(cls, cls)).parse(*args)
-                o = impl.run(parse, e1.fresh(t), 0, True, spans=True, time_limit=0.5, patient=True)
+                o = impl.run(parse, e1.fresh(t), 0, True, spans=True, time_limit=0.5, patient=8.0)
                 out.append(('ENTRY', o['kind'], canon(o.get('value'), mp), o.get('index')))
             except Exception as x:
                 out.append(('ENTRY-EXC', type(x).__name__))
     for t in inputs:
-        o = impl.run(g.parse, e1.fresh(t), 0, True, spans=True, time_limit=0.5, raw=True, patient=True)
+        o = impl.run(g.parse, e1.fresh(t), 0, True, spans=True, time_limit=0.5, raw=True, patient=8.0)
         k = o['kind']
         if k in ('RET', 'PARTIAL'):
             v = o['value']
